@@ -140,6 +140,26 @@ def exec_multi_tan(case, k, classes, desc):
         counter["n"] = 0
         counter["fail_at"] = 1 + case["fail_idx"] % total
         pio, proc = prepare("run")
+        restore = None
+        if case.get("fail_site") == "parity":
+            # the failure is not in a tile update but in the per-image preparation that precedes it (the image's parity is
+            # looked at for every input image, serially and in the workers alike)
+            from toasty.image import Image
+
+            n_img = len(paths)
+            counter["fail_at"] = None
+            pc = {"n": 0, "at": 1 + case["fail_idx"] % n_img}
+            orig_gps = Image.get_parity_sign
+
+            def get_parity_sign(self, _o=orig_gps):
+                pc["n"] += 1
+                if pc["n"] == pc["at"]:
+                    raise E(f"injected failure while preparing input image #{pc['n']}")
+                return _o(self)
+
+            Image.get_parity_sign = get_parity_sign
+            restore = lambda: setattr(Image, "get_parity_sign", orig_gps)
+            classes.append("fails-in-image-preparation")
 
         def make_target(w):
             def go():
@@ -149,11 +169,15 @@ def exec_multi_tan(case, k, classes, desc):
 
             return go
 
-        status, exc, hang, w = run(None, k, case.get("sched"), make_target)
+        try:
+            status, exc, hang, w = run(None, k, case.get("sched"), make_target)
+        finally:
+            if restore:
+                restore()
     desc["failing_update"] = counter["fail_at"]
     judge(desc, status, exc, hang)
     classes.append("inputs%d" % len(case["rects"]))
-    return Outcome(classes=classes, nontrivial=k >= 2 and counter["fail_at"] > 1, info={"failing_update": counter["fail_at"], "of": total})
+    return Outcome(classes=classes, nontrivial=k >= 2 and (counter["fail_at"] or 2) > 1, info={"failing_update": counter["fail_at"], "of": total})
 
 
 def exec_multi_wcs(case, k, classes, desc):
@@ -372,6 +396,8 @@ def strat(draw, tier):
         case["k"] = draw(st.sampled_from([1, 2, 2, 2, 3]))
         if case["k"] > 1:
             case["sched"] = draw(scen.schedules(max_size=100))
+        if stage == "multi_tan" and draw(st.integers(0, 2)) == 0:
+            case["fail_site"] = "parity"
     elif stage == "transform":
         k = draw(st.sampled_from([1, 2, 2, 3, 4, 8]))
         case = {"stage": stage, "depth": draw(st.integers(0, 2 if tier == "quick" else 3)), "k": k}
